@@ -454,7 +454,7 @@ struct Layout {
   }
 };
 
-class Ledger : public Listener {
+template < class SG > class LedgerT : public Listener {
 public:
   Layout lay;
   bool check_handover = true;
@@ -486,7 +486,7 @@ public:
   std::vector< CurTask > cur;
   // subgrid bookkeeping (filled at iteration begin)
   std::vector< int > original_of;
-  DensitySubGridCreator< DensitySubGrid > *creator = nullptr;
+  DensitySubGridCreator< SG > *creator = nullptr;
   // per-iteration snapshot of the cell contents for the reference model
   std::vector< double > snap_density, snap_xH, snap_xHe;
   // results
@@ -494,11 +494,14 @@ public:
   Violation violation;
   std::map< std::string, long long > stats;
   long exit_class_hist[TRAVELDIRECTION_NUMBER];
-  std::function< void(Ledger &, int iloop, const void *const *rec) >
+  std::function< void(LedgerT &, int iloop, const void *const *rec) >
       on_iteration_end;
   uint64_t ledger_hash = FNV_INIT;
+  // RHD driver: number of task slots that legitimately stay in use (the
+  // persistent hydro tasks); -1 = ionization driver
+  long persistent_tasks = -1;
 
-  Ledger() {
+  LedgerT() {
     for (int k = 0; k < TRAVELDIRECTION_NUMBER; ++k)
       exit_class_hist[k] = 0;
   }
@@ -684,7 +687,7 @@ public:
                                          ((uint64_t)current_fiber() << 40));
     switch (kind) {
     case CMI_VERIF_EVENT_ITERATION_BEGIN: {
-      creator = (DensitySubGridCreator< DensitySubGrid > *)a;
+      creator = (DensitySubGridCreator< SG > *)a;
       iteration = (int)x;
       requested = y;
       launched = 0;
@@ -960,6 +963,7 @@ public:
     }
     case CMI_VERIF_EVENT_ITERATION_END: {
       const void *const *rec = (const void *const *)a;
+      persistent_tasks = b ? (long)*(const size_t *)b : -1;
       iteration_end_checks(rec, (int)x, y);
       if (!failed && on_iteration_end)
         on_iteration_end(*this, (int)x, rec);
@@ -1086,7 +1090,12 @@ public:
       fail("leftover", sfmt("iteration %d ended with %zu photon buffers still "
                             "in use",
                             iloop, buffers->get_number_of_active_buffers()));
-    else if (!lay.cfg.task_plot && tasks->get_number_of_active_elements() != 0) {
+    else if (!lay.cfg.task_plot &&
+             tasks->get_number_of_active_elements() !=
+                 (persistent_tasks < 0
+                      ? 0
+                      : (size_t)(persistent_tasks +
+                                 (long)iloop * lay.norig()))) {
       Task *act[8];
       const size_t na = tasks->get_active_elements(8, act);
       std::string types;
@@ -1119,7 +1128,7 @@ public:
           break;
         }
     }
-    for (size_t i = 0; i < cont->size() && !failed; ++i)
+    for (size_t i = 0; cont && i < cont->size() && !failed; ++i)
       for (size_t k = 0; k < (*cont)[i].size(); ++k)
         if ((*cont)[i][k].size() != 0) {
           fail("leftover", sfmt("iteration %d ended with %u packets in a "
@@ -1129,6 +1138,8 @@ public:
         }
   }
 };
+
+typedef LedgerT< DensitySubGrid > Ledger;
 
 } // namespace ion
 
